@@ -64,6 +64,11 @@ func genC11(t *rapid.T) c11Case {
 		c.Phase, c.InFlight, c.DupIn = 3, "none", false
 		c.Ending = rapid.SampledFrom([]string{"channel-create-then-rst", "channel-create-then-fin"}).Draw(t, "dialEnding")
 	}
+	if c.Kind == "legacy" && rapid.IntRange(0, 9).Draw(t, "beforePreamble") == 0 {
+		// RDG_IN_DATA has been accepted (200), the client drops it before sending a single byte
+		c.Phase, c.InFlight, c.DupIn = 0, "none", false
+		c.Ending = rapid.SampledFrom([]string{"in-fin-before-first-byte", "in-rst-before-first-byte"}).Draw(t, "preambleEnding")
+	}
 	if c.Kind == "ws" && c.Phase >= 4 && rapid.IntRange(0, 5).Draw(t, "stalled") == 0 {
 		// endings that need no response from the gateway (a response could not be written to a client that
 		// does not read; that combination is not explored, see DESIGN.md)
@@ -130,7 +135,20 @@ func runC11(c c11Case) *Violation {
 		defer w.observe(snap, 0)
 		tgt := inpTarget(userHeader(o, w.User)...)
 		connID := sess.NewConnID()
-		conn, err := gwc.Dial(c.Kind, tgt, connID)
+		var conn gwc.Conn
+		var err error
+		if strings.HasSuffix(c.Ending, "-before-first-byte") {
+			var l *gwc.Legacy
+			if l, err = gwc.OpenOut(tgt, connID); err == nil {
+				l.HoldPreamble = true
+				if err = l.OpenIn(tgt, connID); err != nil {
+					l.Close()
+				}
+				conn = l
+			}
+		} else {
+			conn, err = gwc.Dial(c.Kind, tgt, connID)
+		}
 		if err != nil {
 			return viol("c11/open", "transport did not open: %v", err)
 		}
@@ -224,6 +242,8 @@ func runC11(c c11Case) *Violation {
 			}
 		case "last-chunk":
 			conn.(*gwc.Legacy).SendRawIn([]byte("0\r\n\r\n"))
+		case "in-fin-before-first-byte", "in-rst-before-first-byte":
+			conn.(*gwc.Legacy).CloseIn(c.Ending == "in-rst-before-first-byte")
 		case "channel-create-then-rst", "channel-create-then-fin":
 			u2, _ := render(histCfg{Opts: o, Kind: c.Kind}, []PktSpec{{K: "cc", Host: "A"}}, "127.0.0.1")
 			rst := c.Ending == "channel-create-then-rst"
@@ -313,7 +333,7 @@ func runC11(c c11Case) *Violation {
 				if !strings.HasSuffix(c.Ending, "-out") && !cc.WaitEOF(releaseBound) {
 					return viol(sig("c11/client-conn-not-closed/legacy-out"), "the RDG_OUT_DATA connection is still open %v after the tunnel ended (%s)", releaseBound, desc)
 				}
-				if c.Ending != "fin" && c.Ending != "rst" && !cc.WaitInClosed(releaseBound) {
+				if c.Ending != "fin" && c.Ending != "rst" && !strings.HasSuffix(c.Ending, "-before-first-byte") && !cc.WaitInClosed(releaseBound) {
 					return viol(sig("c11/client-conn-not-closed/legacy-in"), "the RDG_IN_DATA connection is still open %v after the tunnel ended (%s)", releaseBound, desc)
 				}
 			}
@@ -372,7 +392,7 @@ func TestC11_BIN(t *testing.T) {
 		if strings.HasSuffix(c.Ending, "-out") {
 			c.Ending = "fin" // the open finding about dropped RDG_OUT_DATA connections is probed in-process
 		}
-		if strings.HasPrefix(c.Ending, "channel-create-then") {
+		if strings.HasPrefix(c.Ending, "channel-create-then") || strings.HasSuffix(c.Ending, "-before-first-byte") {
 			c.Ending = "rst" // probed in-process
 		}
 		return c
